@@ -32,7 +32,8 @@ def rat(x):
 
 
 class Driver(object):
-    def __init__(self, timeout_ms=10000, max_paths=20000, max_seconds=600, mode='incremental', max_depth=100000):
+    def __init__(self, timeout_ms=10000, max_paths=20000, max_seconds=600, mode='incremental', max_depth=100000, abs_fork=False):
+        self.abs_fork = abs_fork
         self.s = z3.Solver()
         self.s.set('timeout', timeout_ms)
         self.mode = mode              # 'incremental' (feasibility query per branch) | 'blind' (fork always, query at path end)
@@ -185,17 +186,40 @@ class SymBool(object):
 
 
 class SymReal(object):
-    """Exact real arithmetic; division raises the real ZeroDivisionError on the branch where the divisor is zero."""
-    __slots__ = ('e',)
+    """Exact real arithmetic; division raises the real ZeroDivisionError on the branch where the divisor is zero.
+    A quotient by a symbolic divisor also remembers (numerator, denominator): comparisons against constants and
+    additions of constants are then cross-multiplied (after deciding the sign of the denominator), which keeps the
+    solver queries linear whenever numerator and denominator are."""
+    __slots__ = ('e', 'r')
 
-    def __init__(self, e):
+    def __init__(self, e, r=None):
         self.e = e
+        self.r = r
 
     def _new(self, e):
         return SymReal(e)
 
-    def __add__(a, b): return SymReal(a.e + lift(b))
-    def __radd__(a, b): return SymReal(lift(b) + a.e)
+    def _addc(a, c):
+        """a + c for a constant c, keeping the ratio form"""
+        if a.r is not None:
+            n, d = a.r
+            return SymReal(a.e + c, (n + c * d, d))
+        return SymReal(a.e + c)
+
+    def __add__(a, b):
+        lb = lift(b)
+        if a.r is not None and z3.is_rational_value(lb):
+            return a._addc(lb)
+        if isinstance(b, SymReal) and b.r is not None and z3.is_rational_value(z3.simplify(a.e)):
+            return b._addc(z3.simplify(a.e))
+        return SymReal(a.e + lb)
+
+    def __radd__(a, b):
+        lb = lift(b)
+        if a.r is not None and z3.is_rational_value(lb):
+            return a._addc(lb)
+        return SymReal(lb + a.e)
+
     def __sub__(a, b): return SymReal(a.e - lift(b))
     def __rsub__(a, b): return SymReal(lift(b) - a.e)
     def __mul__(a, b): return SymReal(a.e * lift(b))
@@ -205,12 +229,14 @@ class SymReal(object):
         d = lift(b)
         if D.decide(d == 0):
             raise ZeroDivisionError('float division by zero')
-        return SymReal(a.e / d)
+        if z3.is_rational_value(z3.simplify(d)):
+            return SymReal(a.e / d)
+        return SymReal(a.e / d, (a.e, d))
 
     def __rtruediv__(a, b):
         if D.decide(a.e == 0):
             raise ZeroDivisionError('float division by zero')
-        return SymReal(lift(b) / a.e)
+        return SymReal(lift(b) / a.e, (lift(b), a.e))
 
     def __pow__(a, b):
         if isinstance(b, int) and 0 <= b <= 6:
@@ -222,11 +248,26 @@ class SymReal(object):
 
     def __neg__(a): return SymReal(-a.e)
     def __pos__(a): return a
-    def __abs__(a): return SymReal(z3.If(a.e >= 0, a.e, -a.e))
-    def __lt__(a, b): return (0.0 < b) if _nonfinite(b) else SymBool(a.e < lift(b))
-    def __le__(a, b): return (0.0 <= b) if _nonfinite(b) else SymBool(a.e <= lift(b))
-    def __gt__(a, b): return (0.0 > b) if _nonfinite(b) else SymBool(a.e > lift(b))
-    def __ge__(a, b): return (0.0 >= b) if _nonfinite(b) else SymBool(a.e >= lift(b))
+    def __abs__(a):
+        if D.abs_fork:
+            # decide the sign (keeps every constraint linear at the price of a fork)
+            return a if D.decide(a.e >= 0) else SymReal(-a.e)
+        return SymReal(z3.If(a.e >= 0, a.e, -a.e))
+
+    def _cmp(a, op, b):
+        """comparison a (op) b, cross-multiplied when a is a remembered quotient and b a constant"""
+        lb = lift(b)
+        if a.r is not None and z3.is_rational_value(lb):
+            n, d = a.r
+            if D.decide(d > 0):
+                return SymBool(op(n, lb * d))
+            return SymBool(op(lb * d, n))          # d < 0 (d == 0 was excluded at the division)
+        return SymBool(op(a.e, lb))
+
+    def __lt__(a, b): return (0.0 < b) if _nonfinite(b) else a._cmp(lambda x, y: x < y, b)
+    def __le__(a, b): return (0.0 <= b) if _nonfinite(b) else a._cmp(lambda x, y: x <= y, b)
+    def __gt__(a, b): return (0.0 > b) if _nonfinite(b) else a._cmp(lambda x, y: x > y, b)
+    def __ge__(a, b): return (0.0 >= b) if _nonfinite(b) else a._cmp(lambda x, y: x >= y, b)
     def __eq__(a, b):
         if _nonfinite(b):
             return False           # a real number never equals inf / nan
